@@ -213,6 +213,8 @@ def sigint_works():
         return False
     except KeyboardInterrupt:
         return True
+    except BaseException:  # noqa: BLE001 - anything else means Ctrl-C no longer interrupts the way it should
+        return False
 
 
 def run(ctx, scn):
